@@ -330,7 +330,8 @@ fn gen_input(c: &mut Cur) -> Input {
     } else {
         // pick low address of the range
         let lo128: u128 = match region {
-            0 | 1 => 16 + (base_raw % 4096) as u128,
+            0 => 16,
+            1 => 16 + (base_raw % 4096) as u128,
             2 | 3 | 4 => 0x1_0000 + (base_raw % (1u64 << 47)) as u128,
             5 => (TOP - 15).saturating_sub(span).saturating_sub(match (base_raw >> 20) % 3 {
                 0 => 0,
